@@ -83,19 +83,36 @@ class Exec:
 
 
 def resolve_names(scn):
-    """file names may contain `{pid}` (look-alikes of per-process temporary names): filled in by the
-    process that runs the schedule; the stored case keeps the placeholder so that it replays anywhere"""
+    """the names the run really uses.  (a) `{pid}` (look-alikes of per-process temporary names) is
+    filled in by the process that runs the schedule; (b) every base name gets the prefix `x`, so
+    that no name is a one-character string: CPython hands out ONE object for each of those, and
+    the harness must be able to pass an equal-but-distinct str object on every call (`fresh`).
+    The stored case keeps the scenario as written, so that it replays anywhere."""
     import copy
-    pid = str(os.getpid())
-    if "{pid}" not in json.dumps(scn):
+    if scn.get("_resolved"):
         return scn
+    pid = str(os.getpid())
+
+    def fix(n):
+        n = n.replace("{pid}", pid)
+        d, b = os.path.split(n)
+        return os.path.join(d, "x" + b) if d else "x" + b
+
     r = copy.deepcopy(scn)
-    fix = lambda n: n.replace("{pid}", pid)
+    r["_resolved"] = True
     r["files"] = {fix(n): v for n, v in r["files"].items()}
+    if "frames" in r:
+        r["frames"] = {fix(n): v for n, v in r["frames"].items()}
     for ops in [r.get("setup") or []] + r["threads"]:
         for op in ops:
             op[1] = fix(op[1])
     return r
+
+
+def fresh(name):
+    """an equal but distinct str object (callers derive file names per call: os.path.join, f-strings)"""
+    n = "".join(list(name))
+    return n
 
 
 _COUNTER = [0]
@@ -171,15 +188,15 @@ def execute(scn, prefix, base, step_budget=400, strict=True):
                     sched.note(op=[tid, k])
                     try:
                         if op[0] == "get":
-                            res = ["data", bytes(fc.get_file(op[1])).hex()]
+                            res = ["data", bytes(fc.get_file(fresh(op[1]))).hex()]
                         elif op[0] == "update":
-                            r = fc.update_file(op[1], bytes.fromhex(op[2]), use_fsync=bool(op[3]))
+                            r = fc.update_file(fresh(op[1]), bytes.fromhex(op[2]), use_fsync=bool(op[3]))
                             res = ["applied", 1 if r else 0]
                         elif op[0] == "unload":
-                            fc.unload_file(op[1])
+                            fc.unload_file(fresh(op[1]))
                             res = ["done"]
                         elif op[0] == "dfupdate":
-                            res = ["frame", _frame_rows(fc.update(op[1], _mk_frame(op[2])))]
+                            res = ["frame", _frame_rows(fc.update(fresh(op[1]), _mk_frame(op[2])))]
                         else:
                             raise ValueError(op)
                     except S.SchedAbort:
@@ -669,6 +686,21 @@ def core_scenarios():
         ("newdir:update-d/a||update-d/b", S1([[["update", "d/a", NEW6, 0]], [["update", "d/b", XY, 1]]], files={})),
         ("newdir:update-d/a||update-d/b;get-d/a", S1([[["update", "d/a", NEW6, 1]], [["update", "d/b", XY, 0], ["get", "d/a"]]],
                                                      files={})),
+        # rewrite of a resident file under memory pressure: the write's own completion must skip its
+        # `writing` record and evict another file; then the evicted file is read again
+        ("rewrite-resident:update-a;get-b||get-a", S1([[["update", "aa", b"aaaa".hex(), 0], ["get", "bb"]], [["get", "aa"]]],
+                                                      max=6, files={"aa": b"A".hex(), "bb": b"BBBB".hex()},
+                                                      setup=[["get", "aa"], ["get", "bb"]])),
+        ("rewrite-resident:update-a||get-c", S1([[["update", "aa", b"xyz".hex(), 0]], [["get", "cc"]]],
+                                                max=5, files={"aa": b"AA".hex(), "bb": b"BBB".hex(), "cc": b"CCC".hex()},
+                                                setup=[["get", "aa"], ["get", "bb"]])),
+        # working set rotating through three files that do not fit together, one of them touched twice
+        ("rotate3:get-a||get-b", S1([[["get", "aa"]], [["get", "bb"]]],
+                                    max=6, files={"aa": b"AA".hex(), "bb": b"BBB".hex(), "cc": b"CCC".hex()},
+                                    setup=[["get", "aa"], ["get", "aa"], ["get", "bb"], ["get", "cc"]])),
+        ("rotate3:update-a;get-a||get-b;get-c", S1([[["get", "aa"], ["get", "aa"]], [["get", "bb"], ["get", "cc"]]],
+                                                   max=6, files={"aa": b"AA".hex(), "bb": b"BBB".hex(), "cc": b"CCC".hex()},
+                                                   setup=[["update", "aa", b"ZZ".hex(), 0], ["get", "aa"]])),
         # look-alike names: a file and what an implementation might use as its temporary / backup sibling
         *[(f"lookalike{sfx}:update-k{sfx}||update-k;get-k{sfx}",
            S1([[["update", "k" + sfx, NEW6, 0]], [["update", "k", XY, 0], ["get", "k" + sfx]]], files={}))
@@ -696,6 +728,11 @@ def random_scenario(rng, nthreads=None):
         names = ["k", "k" + rng.choice(LOOKALIKE_SUFFIXES)]     # a file and a temporary/backup look-alike
     maxmem = rng.choice([64, 64, 64, 6, 8])
     pool = [OLD, XY, b"".hex(), b"ABCDE".hex()]
+    three = r >= 0.35 and rng.random() < 0.2
+    if three:                                      # three files that do not fit together
+        names = ["aa", "bb", "cc"]
+        maxmem = rng.choice([5, 6])
+        pool = [b"AA".hex(), b"BBB".hex(), b"C".hex(), b"DDDD".hex()]
     files = {n: rng.choice(pool) for n in names if rng.random() < 0.85}
     if rng.random() < 0.06 and files:
         files[rng.choice(sorted(files))] = b"TOOLARGE!".hex()      # larger than every limit below 64
@@ -715,7 +752,9 @@ def random_scenario(rng, nthreads=None):
         return ["unload", n]
 
     setup = []
-    if rng.random() < 0.55:
+    if three:
+        setup = [mkop() for _ in range(rng.choice([2, 3, 4]))]
+    elif rng.random() < 0.55:
         setup = [mkop() for _ in range(rng.choice([1, 1, 2]))]
     nt = nthreads or rng.choice([2, 2, 3])
     threads = [[mkop() for _ in range(rng.choice([1, 1, 2]))] for _ in range(nt)]
